@@ -10,6 +10,9 @@ CHECKS = {
  "C18": dict(cat="model_checking", tech="Kani/CBMC bounded model checking of execute(Move) over a model file system",
              text="Bounded model checking of the compiled move path (existence check, mkdirs, rename or copy+delete) with symbolic target existence and call failures.",
              note="Trusted: stubs as C05; TOCTOU and real cross-device rename outside the claim.", ref="DESIGN.md §3 C18"),
+ "C19": dict(cat="model_checking", engine="bmc", tech="interleaving bounded model checking with z3 over thread automata extracted from the MIR of Semaphore::acquire/release; shuttle DFS replay",
+             text="Bounded model checking over all interleavings (symbolic scheduler and woken waiter) of 2-3 threads (4 in thorough) doing 1-3 acquire/release pairs, guards released on the acquiring or another thread, 0-2 permits, 0-2 spurious wake-ups; the unrolling is continued until no reachable state has an enabled transition, so each configuration is covered completely. Safety (holders <= permits, no overflow, no unlocked access), no lost wake-up (no stuck state with unfinished threads) and permit restoration are checked in every reachable state.",
+             note="Trusted: library semantics given to Mutex::lock / Condvar::wait / notify_one / guard drop; macro-step extraction by lib/bmc.py + lib/mirsym.py; z3. Fairness/starvation outside.", ref="DESIGN.md §3 C19"),
  "C20": dict(cat="model_checking", tech="Kani/CBMC bounded model checking of FsCommand::execute with a nondeterministically refused lock stub",
              text="Bounded model checking of the compiled execute for each command with maybe_lock refused nondeterministically: no model-FS mutation may follow a refusal and the command must return Err.",
              note="Trusted: Kani translation, lock stub contract (fcntl semantics outside the claim).", ref="DESIGN.md §3 C20"),
@@ -63,6 +66,7 @@ def main():
                   "baseline_off_cmd": "cd /repo/fclones && cargo test --workspace --no-fail-fast --offline", "source_commits": [], "add_only": True},
         "engines": [
             {"name": "kani", "path": "lib/kani.py", "serves_properties": [p for p in props if p in CHECKS and CHECKS[p].get("engine", "kani") == "kani"], "kind_free_text": "E1: Kani harnesses (CBMC) over the compiled code in a scratch copy"},
+            {"name": "bmc", "path": "lib/bmc.py", "serves_properties": ["C19"], "kind_free_text": "E3: z3 interleaving BMC of MIR-derived thread automata"},
             {"name": "mirsym", "path": "lib/mirsym.py", "serves_properties": [p for p in props if p in CHECKS and CHECKS[p].get("engine") == "mirsym"], "kind_free_text": "E2: bounded symbolic execution of the nightly MIR dump of the working tree into z3 (path mode, events, lazy symbolic values)"},
         ],
         "checks": checks,
